@@ -7,7 +7,7 @@ from fractions import Fraction
 from typing import Dict, List, Optional, Set, Tuple
 
 from ..calls import Reach, Resolver
-from ..core import AnalysisError, Report
+from ..core import AnalysisError, Report, rel
 from ..decl import Evaluator, Pfx, UnitV
 from ..effects import reads_in
 from ..grammar import Driver, Tables, build_reference, extract_shipped, normalise
@@ -290,7 +290,10 @@ def tables_rule(rep: Report, prog: Program, resolver: Resolver, tables: Tables) 
     # DIGITS inverts SUPERSCRIPTS on that alphabet
     mi = prog.module("formatting")
     d = mi.globals_assigned.get("DIGITS")
-    inv_ok = bool(d) and ast.unparse(d[0].value).replace(" ", "") == "{v:kfork,vinSUPERSCRIPTS.items()}"  # type: ignore[union-attr]
+    from ..strlang import eval_module_tables
+    tabs = eval_module_tables(mi.tree)
+    dg = tabs.get("DIGITS")
+    inv_ok = bool(d) and isinstance(dg, dict) and all(dg.get(sup.get(c)) == c for c in "-0123456789")
     vals = [sup[c] for c in "-0123456789"]
     rep.check("R13.4", "DIGITS-inverts", inv_ok and len(set(vals)) == len(vals),
               "DIGITS is not the inverse of SUPERSCRIPTS on the exponent alphabet (or two characters share a superscript)",
@@ -369,6 +372,82 @@ def spellings(rep: Report, prog: Program, tables: Tables) -> None:
                         todo.append(hq)
         rep.check("R13.5", f"callback:{cb}", dunder in targets, f"the `{cb}` callback no longer combines its children with {dunder} "
                   f"(operators it reaches: {sorted(t for t in targets if '.__' in t)[:5]})", fi.where())
+
+
+def exponent_scope(rep: Report, prog: Program, tables: Tables) -> None:
+    """R13.10: the writer prints a term as prefix, symbol, superscript and means (prefix x unit) ** exponent (R11.6).  A
+    callback for a grammar rule that has an `exponent` child must therefore apply the exponent to the whole term: what it
+    returns is `<everything else> ** exponent` - a product with the power taken inside (`prefix * unit ** exponent`) reads the
+    same text as another unit."""
+    ci = prog.cls("parsing.QuantityTransformer")
+    with_exp: Set[str] = set()
+    for r in tables.rules:
+        origin, expansion, alias = r[0], r[1], r[2]
+        if any(str(x[0] if isinstance(x, tuple) else x).lstrip("?!_").startswith("exponent") for x in expansion):
+            with_exp.add(alias or origin)
+    n = 0
+    for cb in sorted(with_exp):
+        qs = prog.method("parsing.QuantityTransformer", cb)
+        if not qs or qs[0] not in prog.functions:
+            continue
+        fi = prog.functions[qs[0]]
+        ps = fi.params()
+        ex = next((p_ for p_ in ps if "exponent" in p_ or p_ in ("power", "exp")), None)
+        if ex is None:
+            rep.defer(AnalysisError(f"{fi.qual}: the rule has an exponent child but the callback has no exponent parameter"))
+            continue
+        local = {x.targets[0].id: x.value for x in ast.walk(fi.node) if isinstance(x, ast.Assign) and len(x.targets) == 1 and isinstance(x.targets[0], ast.Name)}
+        for rt in [x for x in ast.walk(fi.node) if isinstance(x, ast.Return) and x.value is not None]:
+            v = rt.value
+            k = 0
+            while isinstance(v, ast.Name) and v.id in local and k < 4:
+                v = local[v.id]
+                k += 1
+            n += 1
+            ok = isinstance(v, ast.BinOp) and isinstance(v.op, ast.Pow) and isinstance(v.right, ast.Name) and v.right.id == ex
+            rep.check("R13.10", f"{fi.qual}:{ast.unparse(rt.value)[:40]}", ok,
+                      f"{fi.qual} returns `{ast.unparse(v)[:70]}`: the exponent of a term must apply to everything the term's text names (prefix "
+                      f"included) - `(...) ** {ex}` - because that is what str() means by it; here a part of the term stays outside the power",
+                      fi.where(rt))
+    if n == 0:
+        raise AnalysisError("no callback of a rule with an exponent child found (R13.10 anchor moved)")
+
+
+CATALOGUE_IMPORTERS = {"cli": "the command line is an application: it wants every unit", "hypothesis": "test strategies over all shipped units",
+                       "pytest": "test helper", "__main__": "entry point of the command line", "systems": "the catalogue itself"}
+
+
+def catalogue_import_edges(rep: Report, prog: Program) -> None:
+    """R13.11: which units are registered decides what a text means (exact symbols win over prefix + symbol: `hh` is
+    hecto-hour until `us` registers the hand).  Importing `measured.systems` registers everything; a library module that does
+    so at import time (json, parsing, formatting, conversions, the core) changes the meaning of texts str() has already
+    produced for every program that imports that module.  Allowed importers are listed with their reason."""
+    n = 0
+    for short, mi in sorted(prog.modules.items()):
+        for st in ast.walk(mi.tree):
+            mods: List[str] = []
+            if isinstance(st, ast.ImportFrom):
+                base = (st.module or "")
+                mods = [f"{base}.{a.name}".lstrip(".") for a in st.names] + [base]
+            elif isinstance(st, ast.Import):
+                mods = [a.name for a in st.names]
+            if not any(m.split(".")[-1] == "systems" for m in mods if m):
+                continue
+            host = st
+            in_function = False
+            while host is not None:
+                host = getattr(host, "_parent", None)
+                if isinstance(host, (ast.FunctionDef, ast.AsyncFunctionDef)):
+                    in_function = True
+            n += 1
+            key = short or "__init__"
+            rep.check("R13.11", f"{key}:import systems", key in CATALOGUE_IMPORTERS,
+                      f"measured.{key} imports measured.systems" + (" (inside a function)" if in_function else " at import time") + ": every shipped unit "
+                      "gets registered as a side effect of using this module, and exact symbols it brings shadow prefix splits that str() has "
+                      "already written (7 hh: 700 h before, 7 hands after)", f"{rel(mi.path)}:{st.lineno}",
+                      note=CATALOGUE_IMPORTERS.get(key))
+    if n == 0:
+        rep.ok("R13.11", "package", note="no module imports measured.systems")
 
 
 def token_resolution(rep: Report, prog: Program, resolver: Resolver) -> None:
@@ -540,6 +619,10 @@ def run(rep: Report) -> None:
     spellings(rep, prog, tables)
     term_prefix_guard(rep, prog)
     token_resolution(rep, prog, resolver)
+    rep.rule("R13.11", "only the listed application / test modules import the whole unit catalogue (measured.systems); no library module does", floor=1)
+    catalogue_import_edges(rep, prog)
+    rep.rule("R13.10", "a callback of a grammar rule with an exponent child applies the exponent to the whole term (prefix included), as str() means it", floor=1)
+    exponent_scope(rep, prog, tables)
     rep.rule("R13.9", "a shipped named unit keeps a parseable text form under every registered prefix (its first factor has exponent +-1 and it carries "
              "no prefix of its own) - the members of the recorded leading-magnitude defect, unit by unit", floor=100)
     prefixed_named_units(rep, ev, "R13.9", "str(prefix * unit) does not parse back")
